@@ -87,11 +87,11 @@ def parseCall (s : String) : Option Call :=
   else if s.startsWith "w" then (parseHex (s.drop 1).toString).map .write
   else none
 
-/-- schedule items: `o`, `s<n>`, `i`, `f`, `z` (= `s0`), and `o*<count>` -/
+/-- schedule items: `o`, `s<n>`, `i`, `f`, `t`, `z` (= `s0`), and `o*<count>` -/
 def parseResp (s : String) : Option (List Resp) :=
   if s = "o" then some [.ok]
   else if s = "i" then some [.interrupted]
-  else if s = "f" then some [.fail]
+  else if s = "f" ∨ s = "t" then some [.fail]   -- `t`: transient (the sink recovers afterwards)
   else if s = "z" then some [.short 0]
   else if s.startsWith "o*" then (s.drop 2).toString.toNat?.map (fun n => List.replicate n .ok)
   else if s.startsWith "s" then (s.drop 1).toString.toNat?.map (fun n => [.short n])
